@@ -1772,15 +1772,7 @@ class Scheduler:
 
         if not has_updated and not self.stop_mode:
             # Has the workflow stalled?
-            # (Not if tasks spawned in this iteration, still runahead-limited,
-            # will be released at the start of the next one.)
-            self.pool.compute_runahead()
-            limit = self.pool.runahead_limit_point
-            if limit is None or not any(
-                itask.state.is_runahead and itask.point <= limit
-                for itask in self.pool.get_tasks()
-            ):
-                self.check_workflow_stalled()
+            self.check_workflow_stalled()
 
         # Sleep a bit for things to catch up.
         # Quick sleep if there are items pending in process pool.
